@@ -314,20 +314,21 @@ Definition promote_tx (c : cfg) (a : N) (t : tx) (p : pool) : pool :=
   end.
 
 (* ---------- tx_pool.go:promoteExecutables, one account ---------- *)
+(* every txList operation mutates pool.queue[a] in place before the hash index is
+   updated; the entry is deleted at the end when the list is empty (aget reads [] both ways) *)
 Definition promote_one (c : cfg) (a : N) (p : pool) : pool :=
   match aget a (p_queue p) with
   | [] => p                                              (* list == nil: continue *)
   | q =>
-      let '(forwards, q1) := l_forward (st_nonce p a) q in
-      let p1 := all_remove_list forwards p in
-      let '(drops, _, q2) := l_filter false (st_bal p a) (s_maxgas (p_st p)) q1 in
-      let p2 := all_remove_list drops p1 in
-      let '(readies, q3) := l_ready (pn_get p2 a) q2 in
-      let p3 := fold_left (fun s t => promote_tx c a t s) readies p2 in
-      let '(caps, q4) := l_cap (c_aqueue c) q3 in
-      let p4 := all_remove_list caps p3 in
-      let p5 := removed (len forwards + len drops + len caps) p4 in
-      set_queue a q4 p5
+      let '(forwards, q1) := l_forward (st_nonce p a) q in                       (* list.Forward *)
+      let p1 := all_remove_list forwards (set_queue a q1 p) in
+      let '(drops, _, q2) := l_filter false (st_bal p a) (s_maxgas (p_st p)) q1 in  (* list.Filter *)
+      let p2 := all_remove_list drops (set_queue a q2 p1) in
+      let '(readies, q3) := l_ready (pn_get p2 a) q2 in                           (* list.Ready *)
+      let p3 := fold_left (fun s t => promote_tx c a t s) readies (set_queue a q3 p2) in
+      let '(caps, q4) := l_cap (c_aqueue c) q3 in                                 (* list.Cap *)
+      let p4 := all_remove_list caps (set_queue a q4 p3) in
+      removed (len forwards + len drops + len caps) p4
   end.
 
 Definition promote_list (c : cfg) (accts : list N) (p : pool) : pool :=
@@ -339,12 +340,11 @@ Definition requeue (c : cfg) (t : tx) (p : pool) : pool := fst (enqueue_tx c t f
 (* ---------- tx_pool.go:demoteUnexecutables, one account ---------- *)
 Definition demote_one (c : cfg) (a : N) (p : pool) : pool :=
   let nonce := st_nonce p a in
-  let '(olds, l1) := l_forward nonce (aget a (p_pend p)) in
-  let p1 := all_remove_list olds p in
-  let '(drops, invalids, l2) := l_filter true (st_bal p a) (s_maxgas (p_st p)) l1 in
-  let p2 := all_remove_list drops p1 in
-  let p3 := set_pend a l2 p2 in
-  let p4 := fold_left (fun s t => requeue c t s) invalids p3 in
+  let '(olds, l1) := l_forward nonce (aget a (p_pend p)) in                      (* list.Forward *)
+  let p1 := all_remove_list olds (set_pend a l1 p) in
+  let '(drops, invalids, l2) := l_filter true (st_bal p a) (s_maxgas (p_st p)) l1 in  (* list.Filter, strict *)
+  let p2 := all_remove_list drops (set_pend a l2 p1) in
+  let p4 := fold_left (fun s t => requeue c t s) invalids p2 in
   match l2, l_get nonce l2 with
   | _ :: _, None =>                                      (* gap in front: list.Cap(0) *)
       fold_left (fun s t => requeue c t s) l2 (set_pend a [] p4)
@@ -476,7 +476,8 @@ Definition do_reset (c : cfg) (r : reset_req) (p : pool) : pool :=
 
 (* "Update all accounts to the latest known pending nonce" *)
 Definition fix_nonces (p : pool) : pool :=
-  fold_left (fun s kv => match rev (snd kv) with x :: _ => pn_set (fst kv) (t_nonce x + 1) s | [] => s end) (p_pend p) p.
+  fold_left (fun s a => match rev (aget a (p_pend p)) with x :: _ => pn_set a (t_nonce x + 1) s | [] => s end)
+            (akeys (p_pend p)) p.
 
 (* ---------- tx_pool.go:runReorg ---------- *)
 Definition run (c : cfg) (rs : option reset_req) (dirty qorder : list N) (p : pool) : pool :=
